@@ -3,6 +3,7 @@
 package services
 
 import (
+	"bytes"
 	"context"
 	"math"
 	"strings"
@@ -247,6 +248,9 @@ func VerifC12() {
 	if space == 1 {
 		space = 7 // undefined enum value
 	}
+	if space == 2 {
+		space = -1 // proto3 enums are open int32: a negative value is on the wire like any other
+	}
 	created, cerr := s.catalogue.Create(ctx, &pb.Dataset{Dimension: uint32(dim), PartitionCount: uint32(pcount), ReplicationFactor: uint32(rfactor), Space: space})
 	verifrt.Reach("dataset-created")
 	var dsId []byte
@@ -257,6 +261,14 @@ func VerifC12() {
 			partId = created.GetPartitions()[0].GetId()
 		}
 		// let the allocator load the partitions' raft groups
+		verifSettle(nil)
+	}
+	// optionally the only replica of every partition has left the cluster (replication factor
+	// 1 and its node removed): the committed catalogue change the allocator proposes then
+	if cerr == nil && verifrt.Bound("noreplica", 0) == 1 && verifrt.Choose("replicas-left", 2) == 1 {
+		if err := storage.VerifRemoveReplicas(ctx, s.dm, 1); err == nil {
+			verifrt.Tag("partitions-without-replica")
+		}
 		verifSettle(nil)
 	}
 	known := []byte{9, 9, 9, 9, 9, 9, 9, 9, 9, 9, 9, 9, 9, 9, 9, 9}
@@ -305,7 +317,16 @@ func VerifC12() {
 			s.data.PartitionBatchRemove(ctx, req)
 		}
 	case 9:
-		s.data.PartitionInfo(ctx, &pb.PartitionInfoRequest{DatasetId: did, PartitionId: verifBytes("partition-id", partId)})
+		pid := verifBytes("partition-id", partId)
+		resp, perr := s.data.PartitionInfo(ctx, &pb.PartitionInfoRequest{DatasetId: did, PartitionId: pid})
+		// the answer another node adds into a dataset's size: a dataset or partition this node
+		// does not know must be an error, never a silent zero (C17, responder side)
+		known9 := dsId != nil && partId != nil && bytes.Equal(did, dsId) && bytes.Equal(pid, partId)
+		if !known9 {
+			verifrt.Assert(perr != nil, "partition-info-for-an-unknown-dataset-or-partition-is-an-error")
+		} else if perr == nil && resp != nil {
+			verifrt.Tag("partition-info-answered")
+		}
 	case 10:
 		s.search.Search(&pb.SearchRequest{DatasetId: did, Query: verifVector("query", dim), K: verifK()}, &verifSearchStream{})
 	case 11:
